@@ -180,13 +180,21 @@ def sampled_fault(draw):
          "exc": draw(st.sampled_from(list(faults.EXC_TYPES))), "workers": draw(st.sampled_from([1, 1, 2, 3, 4])),
          "container": draw(st.sampled_from(["list", "tuple", "generator"]))}
     if kind == "no_donor":
-        cfg["m"] = 10 ** 6
-        cfg["K"] = 3
+        # either no cluster can ever donate, or the donors can pay for some but not all of the starved clusters
+        T_stacked = sum(L - cfg["W"] + 1 for L in cfg["lengths"])
+        cfg["m"] = draw(st.sampled_from([10 ** 6, max(2, T_stacked // 2 - 1), max(2, T_stacked // 2 - 1), max(2, T_stacked // 3)]))
+        cfg["K"] = draw(st.sampled_from([3, 4, 4]))
         cfg["regimes"] = 1
         cfg["beta"] = 400.0
         cfg["limit"] = 5
+        cfg["biased"] = True          # a one-member cluster must not stop the run earlier for the other documented reason
+        cfg["outliers"] = 0
     cfg["fault"] = f
     return cfg
+
+
+def case_limit(cfg):
+    return int(cfg["limit"])
 
 
 def _check_clean_after(cfg, ref, workers, timeout, what):
@@ -219,11 +227,30 @@ def execute(case, t):
         _reap(leftover)
         if timed_out:
             raise Violation("call with min_cluster_size too large did not return within the watchdog")
+        # reference: was there a round whose repopulation could not be paid for?  (sizes entering the step, capacity model of C08)
+        from harness.oracle import repop_model as rm
+        shortage = None
+        for r in range(1, len(tr.rounds) + 1):
+            prev = tr.rounds[r - 1]["phases"].get("relabel")      # the state that enters round r's repopulation
+            if prev is None:
+                break
+            sizes = [len(c["members"]) for c in prev["after"]["clusters"]]
+            needy, cap, err = rm.expected_plan(sizes, cfg["m"], None)
+            if needy and err:
+                shortage = (r, sizes, cap)
+                break
+            if r < len(tr.rounds) and tr.rounds[r]["phases"].get("relabel") is None:
+                break
+        if shortage is not None and shortage[0] >= case_limit(cfg):
+            shortage = None           # the loop ended before that round could start
         if tr.ok:
-            t.discard("no cluster ever needed repopulation")
+            if shortage is not None:
+                raise Violation(f"the call returned a result although in round {shortage[0]} the clusters {shortage[1]} with "
+                                f"min_cluster_size {cfg['m']} left more starved clusters than the donors could pay for (capacities {shortage[2]})")
+            t.discard("no round ended with a donor shortage")
         if not isinstance(tr.exc, RuntimeError) or "donor" not in str(tr.exc).lower():
-            if isinstance(tr.exc, (AssertionError, ValueError)) or "not finite" in str(tr.exc):
-                t.discard(f"run failed earlier for another documented reason ({type(tr.exc).__name__})")
+            if shortage is None and (isinstance(tr.exc, (AssertionError, ValueError)) or "not finite" in str(tr.exc)):
+                t.discard(f"run failed for another documented reason before any donor shortage ({type(tr.exc).__name__})")
             raise Violation(f"donor shortage surfaced as {type(tr.exc).__name__}: {str(tr.exc)[:120]}, expected a RuntimeError naming the donor shortage")
         if n_left:
             raise Violation(f"{n_left} worker process(es) still alive when the donor-shortage error reached the caller")
@@ -231,6 +258,7 @@ def execute(case, t):
         ref2 = clean_reference(cfg2)
         if ref2 is not None:
             _check_clean_after(cfg2, ref2, workers, timeout, "a donor-shortage failure")
+        t.cls("donor_shortage_total" if cfg["m"] >= 10 ** 6 else "donor_shortage_partial")
         t.mark_nontrivial({"error": str(tr.exc)[:80], "workers": workers})
         return
     r = f["round"] % ref["rounds"]
